@@ -137,6 +137,14 @@ class ParsedContract(object):
                     ls.invariants.append(call.args[2])
                 else:
                     ls.hints.append((ast.literal_eval(call.args[2]), call.args[3]))
+            elif kind == 'step_ensures':
+                self.loop(call.args[0]).step_ensures.append(call.args[1])
+            elif kind == 'step_raises':
+                when = None
+                for k in call.keywords:
+                    if k.arg == 'when':
+                        when = k.value
+                self.loop(call.args[0]).step_raises.append((call.args[1], when))
             elif kind == 'split_op':
                 self.loop(call.args[0]).split_op = True
             elif kind == 'unroll':
@@ -591,6 +599,8 @@ def run_unit(cdef, config=None, callee_contracts=None):
         cands = uses.get(f.__code__)
         if not cands:
             return None
+        pref = pc.options.get('prefer', [])
+        cands = sorted(cands, key=lambda u: 0 if u.cdef.name in pref else 1)
         for u in cands:
             if u.cdef is cdef:
                 continue
